@@ -4,6 +4,7 @@ import (
 	"fmt"
 	"math/big"
 	"math/rand"
+	"strings"
 
 	"orbverif/fw"
 	"orbverif/run"
@@ -69,8 +70,15 @@ func genHostile(r *rand.Rand, l *Lab, validBias int) (run.Transfer, hostileSetup
 			hs.FeeCls = "none"
 		}
 	case r.Intn(100) < 60:
-		s.HasFee, s.Fees = true, GenAnyFees(r, w, a)
-		hs.FeeCls = fmt.Sprintf("any%d", len(s.Fees))
+		if r.Intn(5) == 0 {
+			var cls string
+			s.Fees, cls = genBoundaryFees(r, w, a)
+			s.HasFee = true
+			hs.FeeCls = "boundary:" + cls
+		} else {
+			s.HasFee, s.Fees = true, GenAnyFees(r, w, a)
+			hs.FeeCls = fmt.Sprintf("any%d", len(s.Fees))
+		}
 	default:
 		hs.FeeCls = "none"
 	}
@@ -188,6 +196,26 @@ func aftermath(e *fw.Env, l *Lab, ctx sdkCtx, prev run.Transfer, setup any) {
 	}
 }
 
+var c01MemoCache []string
+
+// c01Memos are memos that carry no (valid) orbiter payload: other applications' memos, empty and
+// non-JSON documents, whole-document mutations and a sample of single-point mutations.
+func c01Memos(l *Lab) []string {
+	if c01MemoCache != nil {
+		return c01MemoCache
+	}
+	out := hostileMemos(l, nil)
+	for _, tpl := range l.Templates() {
+		for i, m := range MutateMemo(tpl) {
+			if len(m.Memo) < 4000 && (m.Site == "$" || i%23 == 0) {
+				out = append(out, m.Memo)
+			}
+		}
+	}
+	c01MemoCache = out
+	return out
+}
+
 // CheckC01 drives hostile packets from many states and watches the orbiter account.
 func CheckC01(e *fw.Env, l *Lab) {
 	n := e.N(6000, 300000)
@@ -195,6 +223,15 @@ func CheckC01(e *fw.Env, l *Lab) {
 		t, hs := genHostile(e.R, l, 25)
 		if e.R.Intn(100) < 10 {
 			t.Spec.Passthrough = make([]byte, e.R.Intn(80))
+		}
+		if e.R.Intn(100) < 12 {
+			// "every memo": documents that are not payloads at all, or broken ones, addressed to
+			// the orbiter account
+			memos := c01Memos(l)
+			t.Spec = nil
+			t.Memo = memos[e.R.Intn(len(memos))]
+			t.Receiver = []string{OrbiterReceiver(), strings.ToUpper(OrbiterReceiver())}[e.R.Intn(2)]
+			hs.RecvCls, hs.RouteCls, hs.FeeCls = "orbiter", "hostile-memo", fmt.Sprintf("memo%d", len(t.Memo)%97)
 		}
 		ctx, _ := l.Base.CacheContext()
 		applySetup(e.R, l, ctx, t, &hs, true)
